@@ -408,7 +408,7 @@ def run(tier, seed, replay):
     quick = tier == "quick"
 
     # ---- stream S: comment runs, implementation vs model vs oracle
-    scases = gen_split_cases(rng, 1500 if quick else 40000)
+    scases = gen_split_cases(rng, 1000 if quick else 30000)
     # boundary shapes, always present
     for run_ in ["/**/", "/***/", "//\n", "// é\r\n/* b */", "/* é */ /* b */\n", "/* a\n é*/ /* b */ // c\n", "//a\r//b\n",
                  "/* 😀 */\t/* x */", "/*/ */", "/* * / */ ", "// x", "/* unterminated", "//\r\n\r\n//\r\n", "/* a */\n\n\n  /* b */",
